@@ -225,8 +225,7 @@ pub fn run(ctx: &mut Ctx) {
         states, boundary cuts incl. all-outside and initials-only) with a never-violated keep-alive property; \
         every model is checked by BFS, DFS and on-demand(run to completion) at two random thread counts. \
         A case is non-trivial when >=2 states are reachable and some state is generated more than once \
-        (join, cycle or self-loop); distinct = distinct structural hash of the generated model."
-        .into();
+        (join, cycle or self-loop); distinct = distinct structural hash of the generated model. Additional sub-checks: on-demand runs with targeted check_fingerprint requests before run_to_completion; models listing an initial state more than once (set equality and unique_state_count only); 'funnel' layered graphs in which many states generate the same successors at the same time.".into();
     ctx.assumptions = vec![
         "u32 states: 64-bit fingerprint collisions are ignored".into(),
         "initial states are generated distinct, as the statement assumes".into(),
